@@ -27,10 +27,20 @@ type c07Case struct {
 	Tokens  []string          `json:"tokens"` // upper-cased code tokens of the comment
 	Comment string            `json:"comment"`
 	Place   string            `json:"placement"`
+	More    []c07Comment      `json:"more_comments,omitempty"` // further inserted comments (same program)
 	// for a suppressed once-per-file report at site S (key "sN CODE"): the
 	// ordered later mentions of that type in the file: site ids; Judged marks
 	// mentions the property statement lists.
 	Successors map[string][]c07Succ `json:"once_per_file_successors"`
+}
+
+type c07Comment struct {
+	File    string   `json:"scope_file"`
+	Lo      int      `json:"scope_first_line"`
+	Hi      int      `json:"scope_last_line"`
+	Tokens  []string `json:"tokens"`
+	Comment string   `json:"comment"`
+	Place   string   `json:"placement"`
 }
 
 type c07Succ struct {
@@ -74,12 +84,18 @@ func c07Evaluate(c c07Case) string {
 			}
 		}
 	}
-	inScope := func(site int) bool {
+	comments := append([]c07Comment{{File: c.File, Lo: c.Lo, Hi: c.Hi, Tokens: c.Tokens}}, c.More...)
+	suppressed := func(site int, code string) bool {
 		w, ok := where[site]
 		if !ok {
 			return false
 		}
-		return w[0].(string) == c.File && w[1].(int) >= c.Lo && w[1].(int) <= c.Hi
+		for _, cm := range comments {
+			if w[0].(string) == cm.File && w[1].(int) >= cm.Lo && w[1].(int) <= cm.Hi && c07Matches(cm.Tokens, code) {
+				return true
+			}
+		}
+		return false
 	}
 	want := map[string]bool{}
 	allowedExtra := map[string]bool{}
@@ -92,7 +108,7 @@ func c07Evaluate(c c07Case) string {
 			want[k] = true // untagged line: must stay
 			continue
 		}
-		if !(inScope(site) && c07Matches(c.Tokens, code)) {
+		if !suppressed(site, code) {
 			want[k] = true
 			continue
 		}
@@ -101,7 +117,7 @@ func c07Evaluate(c c07Case) string {
 			var grp []string
 			judgedFound := false
 			for _, s := range c.Successors[k] {
-				if inScope(s.Site) && c07Matches(c.Tokens, code) {
+				if suppressed(s.Site, code) {
 					continue
 				}
 				grp = append(grp, fmt.Sprintf("s%d %s", s.Site, code))
@@ -284,55 +300,97 @@ func TestC07(t *testing.T) {
 				sameFile = append(sameFile, n)
 			}
 		}
-		var N proggen.NodeRef
-		rel := "any"
-		switch r := rapid.IntRange(0, 99).Draw(rt, "relation"); {
-		case r < 60 && len(holding) > 0:
-			N = holding[rapid.IntRange(0, len(holding)-1).Draw(rt, "holdingIdx")]
-			rel = "node-contains-target"
-		case r < 85 && len(sameFile) > 0:
-			N = sameFile[rapid.IntRange(0, len(sameFile)-1).Draw(rt, "siblingIdx")]
-			rel = "same-file-not-containing"
-		default:
-			N = nodes[rapid.IntRange(0, len(nodes)-1).Draw(rt, "anyIdx")]
+		type ins struct {
+			N                 proggen.NodeRef
+			place, rel, class string
+			comment           string
+			tokens            []string
 		}
-		text, tokens, class := c07CodeList(rt, targetCode)
-		prefix := rapid.SampledFrom([]string{"// @ignore ", "//@ignore ", "//  @ignore\t", "// @ignore  "}).Draw(rt, "prefix")
-		comment := prefix + text
-		place := rapid.SampledFrom([]string{"before", "before", "before", "trailing", "trailing", "trailing-last", "file-head"}).Draw(rt, "placement")
-		multi := func() bool { return N.Node.End > N.Node.Start }
-		if place == "trailing-last" && !multi() {
-			place = "trailing"
+		var inserted []ins
+		used := map[*proggen.Node]bool{}
+		ncomments := 1
+		if rapid.IntRange(0, 9).Draw(rt, "moreComments") < 3 {
+			ncomments = rapid.IntRange(2, 3).Draw(rt, "ncomments")
 		}
-		switch place {
-		case "before":
-			N.Node.Before = append(N.Node.Before, comment)
-		case "trailing":
-			N.Node.Trailing = comment
-		case "trailing-last":
-			N.Node.TrailingLast = comment
-		case "file-head":
-			N.File.Head = append(N.File.Head, comment)
+		for ci := 0; ci < ncomments; ci++ {
+			var N proggen.NodeRef
+			rel := "any"
+			switch r := rapid.IntRange(0, 99).Draw(rt, "relation"); {
+			case r < 60 && len(holding) > 0:
+				N = holding[rapid.IntRange(0, len(holding)-1).Draw(rt, "holdingIdx")]
+				rel = "node-contains-target"
+			case r < 85 && len(sameFile) > 0:
+				N = sameFile[rapid.IntRange(0, len(sameFile)-1).Draw(rt, "siblingIdx")]
+				rel = "same-file-not-containing"
+			default:
+				N = nodes[rapid.IntRange(0, len(nodes)-1).Draw(rt, "anyIdx")]
+			}
+			text, tokens, class := c07CodeList(rt, targetCode)
+			prefix := rapid.SampledFrom([]string{"// @ignore ", "//@ignore ", "//  @ignore\t", "// @ignore  "}).Draw(rt, "prefix")
+			comment := prefix + text
+			place := rapid.SampledFrom([]string{"before", "before", "before", "trailing", "trailing", "trailing-last", "file-head"}).Draw(rt, "placement")
+			if place == "trailing-last" && N.Node.End <= N.Node.Start {
+				place = "trailing"
+			}
+			if place != "file-head" && used[N.Node] {
+				continue
+			}
+			switch place {
+			case "before":
+				N.Node.Before = append(N.Node.Before, comment)
+			case "trailing":
+				N.Node.Trailing = comment
+			case "trailing-last":
+				N.Node.TrailingLast = comment
+			case "file-head":
+				if len(N.File.Head) > 0 {
+					continue
+				}
+				// attached to the package clause, detached by a blank line, or
+				// around a build constraint
+				switch rapid.IntRange(0, 3).Draw(rt, "headShape") {
+				case 0:
+					N.File.Head = []string{comment}
+				case 1:
+					N.File.Head = []string{comment, ""}
+				case 2:
+					N.File.Head = []string{comment, "", "//go:build !vfnevertag", ""}
+				case 3:
+					N.File.Head = []string{"//go:build !vfnevertag", "", comment}
+				}
+			}
+			used[N.Node] = true
+			inserted = append(inserted, ins{N: N, place: place, rel: rel, class: class, comment: comment, tokens: tokens})
+		}
+		if len(inserted) == 0 {
+			return
 		}
 		p.Render()
 		srcB := p.Sources()
-		fileKey := N.File.Pkg.Dir + "/" + N.File.Name
-		lo, hi := 0, 0
-		switch place {
-		case "before":
-			lo, hi = N.Node.Start, N.Node.End
-			if N.Stmt == nil {
-				place = "before-declaration"
-			} else {
-				place = "before-statement"
+		var scopes []c07Comment
+		for i := range inserted {
+			in := &inserted[i]
+			N := in.N
+			lo, hi := 0, 0
+			switch in.place {
+			case "before":
+				lo, hi = N.Node.Start, N.Node.End
+				if N.Stmt == nil {
+					in.place = "before-declaration"
+				} else {
+					in.place = "before-statement"
+				}
+			case "trailing":
+				lo, hi = N.Node.Start, N.Node.Start
+			case "trailing-last":
+				lo, hi = N.Node.End, N.Node.End
+			case "file-head":
+				lo, hi = 1, len(N.File.Lines)
 			}
-		case "trailing":
-			lo, hi = N.Node.Start, N.Node.Start
-		case "trailing-last":
-			lo, hi = N.Node.End, N.Node.End
-		case "file-head":
-			lo, hi = 1, len(N.File.Lines)
+			scopes = append(scopes, c07Comment{File: N.File.Pkg.Dir + "/" + N.File.Name, Lo: lo, Hi: hi, Tokens: in.tokens, Comment: in.comment, Place: in.place})
 		}
+		fileKey, lo, hi, tokens, comment, place := scopes[0].File, scopes[0].Lo, scopes[0].Hi, scopes[0].Tokens, scopes[0].Comment, scopes[0].Place
+		rel, class := inserted[0].rel, inserted[0].class
 		// successors for once-per-file codes
 		succ := map[string][]c07Succ{}
 		for k := range baseKeys {
@@ -343,7 +401,7 @@ func TestC07(t *testing.T) {
 			}
 			succ[k] = c07Successors(p, site, code, base.Diags, srcA)
 		}
-		c := c07Case{Pkgs: pkgDirs(p), Base: srcA, With: srcB, File: fileKey, Lo: lo, Hi: hi, Tokens: tokens, Comment: comment, Place: place, Successors: succ}
+		c := c07Case{Pkgs: pkgDirs(p), Base: srcA, With: srcB, File: fileKey, Lo: lo, Hi: hi, Tokens: tokens, Comment: comment, Place: place, Successors: succ, More: scopes[1:]}
 		after := loadOrBug(rt, id, p, cfg)
 		_ = after
 		ev.Eval(id)
@@ -369,6 +427,17 @@ func TestC07(t *testing.T) {
 		}
 		if in > 0 && out > 0 {
 			ev.NonTrivial(id, ev.Hash(fmt.Sprint(srcB)))
+		}
+		ev.Class(id, fmt.Sprintf("comments inserted: %d", len(scopes)))
+		if len(scopes) > 1 {
+			// nested: one scope inside another with a shared matching token
+			for i := range scopes {
+				for j := range scopes {
+					if i != j && scopes[i].File == scopes[j].File && scopes[i].Lo <= scopes[j].Lo && scopes[j].Hi <= scopes[i].Hi {
+						ev.Class(id, "nested scopes")
+					}
+				}
+			}
 		}
 		ev.Class(id, "placement "+place)
 		ev.Class(id, "codes "+class)
